@@ -45,6 +45,7 @@ type cdpCfg struct {
 	limitBids    bool // limit-bid deposit / withdraw / cancel with hostile amount and denom
 	reserve      bool // app reserve funds get topped up now and then
 	unsafeBias   bool // liquidate messages prefer vaults that are currently unsafe
+	gen2Only     bool // only products of the generation-2 app are used
 	maxGap       time.Duration
 }
 
@@ -138,7 +139,7 @@ func (r *cdpRunner) pickAcct() *sim.Acct { return r.u.c.Accts[r.rnd.Intn(len(r.u
 func (r *cdpRunner) pickProduct(stable bool) *uProduct {
 	var c []*uProduct
 	for _, p := range r.u.products {
-		if p.P.IsStableMintVault == stable {
+		if p.P.IsStableMintVault == stable && (!r.cfg.gen2Only || p.App == appBeacon) {
 			c = append(c, p)
 		}
 	}
